@@ -592,6 +592,7 @@ func checkC01(res *Result) {
 	// R6
 	checkCodecs(res, S, "C01-R6")
 	checkC01Totality(res)
+	checkC01Alias(res, S)
 
 	res.Functions = nElem + len(M.Types)
 	var natlang []string
